@@ -144,6 +144,16 @@ META["C06"] = dict(
     assumptions=COMMON_ASSUME,
 )
 
+META["C03"] = dict(
+    level="other",
+    technique="stack-frame and node-per-call contracts on the real recursive-descent parser (main_loop, connection, subcircuit) and limit-ordering call preconditions of Parser.element against the Element setter contracts, VCs from the AST discharged by z3; the emitter/parser round trip over a grammar-directed printer is a labelled bounded stand-in",
+    level_text="Proved for all token sequences and stacks: a sub-circuit leaves the parser stack exactly as it found it (it never moves elements into or out of a container), every main_loop/connection call consumes tokens and pushes exactly one node without touching anything below; Parser.element applies value/limits/fixed flags such that an element emitted by serialize() with lower < upper and lower <= value <= upper is accepted and ends in that state. Element order inside connections, text-level spellings (white space, fixed marker, percentages, labels, decimals) and re-serialisation identity are covered by the bounded printer/parser round trip.",
+    level_note="tokens as kind codes, nodes as opaque ids (order of children not tracked); Parser.parameters/param/param_limit assumed by contract; float formatting assumed; labels bounded",
+    explanation="Obligations: parser.py main_loop, connection (Series/Parallel), subcircuit (frame), element (call-pre of set_lower/upper_limits, set_fixed; final state). Bounded: all trees up to a bound x all spellings x labels x decimals.",
+    trusted_base=["contracts/parser.py token/stack model", "contracts/element.py setter contracts (proved in C14)"],
+    assumptions=COMMON_ASSUME + ["'%.{d}E' % x and float(str) round-trip to the printed precision"],
+)
+
 NOT_BUILT = "check not built yet in this session (planned, see DESIGN.md section 3)"
 NOT_APPLICABLE = {
     "C10": "statistical calibration over an RNG distribution and heuristic optimisers: no pre/postcondition within reach of a deductive verifier implies it (DESIGN.md C10); sampling would be a different technique family",
@@ -153,4 +163,4 @@ for _p in ["C%02d" % i for i in range(1, 21)]:
     if _p not in META and _p not in NOT_APPLICABLE:
         NOT_APPLICABLE[_p] = NOT_BUILT
 
-FIX_COMMITS = ["0098309", "82df5c9", "ded46ec", "756923f", "8a458bc", "a72c860", "b452482", "d151f47", "9ae2f3a", "8b96fa1", "fbdaf29", "dfe0838", "b53b7ad", "2609bab", "9c2d0e3", "8760cb9", "e53f4fa", "1cd7e3e", "a2ba9a8"]
+FIX_COMMITS = ["0098309", "82df5c9", "ded46ec", "756923f", "8a458bc", "a72c860", "b452482", "d151f47", "9ae2f3a", "8b96fa1", "fbdaf29", "dfe0838", "b53b7ad", "2609bab", "9c2d0e3", "8760cb9", "e53f4fa", "1cd7e3e", "a2ba9a8", "b02d031"]
